@@ -11,6 +11,7 @@ import (
 	"strings"
 	"sync"
 	"testing"
+	"time"
 
 	"github.com/ossrs/go-oryx-lib/logger"
 	"pgregory.net/rapid"
@@ -40,7 +41,15 @@ type Case struct {
 	// Reopen: before the goroutines start the logger is closed and switched to the SAME writer again
 	// (Switch(w), Close(), Switch(w)): w is the current writer from then on
 	Reopen bool `json:"reopen,omitempty"`
+	// Plain: the writer installed is a bare io.Writer (no Close method) after the logger was closed - the
+	// configuration in which the library colours warnings and errors on the console; the lines still go to the writer
+	Plain bool `json:"plain,omitempty"`
 }
+
+// plainWriter hides the Close method of the recording writer.
+type plainWriter struct{ w *recWriter }
+
+func (p plainWriter) Write(b []byte) (int, error) { return p.w.Write(b) }
 
 type recWriter struct {
 	mu     sync.Mutex
@@ -148,6 +157,10 @@ func runCase(c Case) (st stats, err error) {
 		logger.Close()
 		logger.Switch(w)
 	}
+	if c.Plain {
+		logger.Close()
+		logger.Switch(plainWriter{w})
+	}
 	defer logger.Switch(&recWriter{})
 	pid := os.Getpid()
 
@@ -246,7 +259,13 @@ func runCase(c Case) (st stats, err error) {
 		}(gi, ops)
 	}
 	close(start)
-	wg.Wait()
+	done := make(chan struct{})
+	go func() { wg.Wait(); close(done) }()
+	select {
+	case <-done:
+	case <-time.After(2 * time.Minute):
+		return st, fmt.Errorf("stall: after 2 minutes some goroutine is still inside a context-creating or logging call (%d goroutines, a few dozen calls each)", len(c.G))
+	}
 	if argErr != nil {
 		return st, argErr
 	}
@@ -384,6 +403,7 @@ func genCase(t *rapid.T) Case {
 		c.G = append(c.G, ops)
 	}
 	c.Reopen = rapid.IntRange(0, 3).Draw(t, "reopen") == 0
+	c.Plain = rapid.IntRange(0, 3).Draw(t, "plain") == 0
 	return c
 }
 
@@ -392,7 +412,7 @@ var rec = ev.New(prop, "concurrent-logging",
 		"T,Tf,W,Wf,E,Ef,I,If and the Logger interface with printable messages (Printf-style formats optionally ending in a newline; arguments optionally passed as a slice with spare capacity, which must come back untouched) and context kinds {nil, object with Cid(), library context, plain context.Context}; a recording io.WriteCloser installed with Switch keeps each Write call; "+
 		"oracle: ids pairwise distinct in the whole process, alias id == source id, one Write call per non-Info call = exactly one complete line with the label, pid, cid of the context passed and the intact message, "+
 		"race detector silent; non-trivial = >=2 goroutines that create contexts").
-	Require("parallel", "obj-ctx", "alias", "alias-onto-identified-parent", "format-ends-with-newline", "args-with-spare-capacity", "closed-and-switched-to-the-same-writer")
+	Require("parallel", "obj-ctx", "alias", "alias-onto-identified-parent", "format-ends-with-newline", "args-with-spare-capacity", "closed-and-switched-to-the-same-writer", "writer-without-close")
 
 func TestConcurrentLogging(t *testing.T) {
 	ev.Rapid(t, "concurrent-logging", 600, 80000, func(t *rapid.T) {
@@ -410,6 +430,9 @@ func TestConcurrentLogging(t *testing.T) {
 		}
 		if c.Reopen {
 			cl = append(cl, "closed-and-switched-to-the-same-writer")
+		}
+		if c.Plain {
+			cl = append(cl, "writer-without-close")
 		}
 		for _, g := range c.G {
 			for _, o := range g {
